@@ -477,7 +477,7 @@ func limitArgProvenance(c *an.Check, ctor an.Callee, idx int, construct string) 
 
 func init() {
 	register(&Def{ID: "C08", Run: c08,
-		Explain:     "Decides on SSA for the packet connection and the message session: (EXACTREAD) the stream is read only through io.ReadFull; (BOUNDED/R1) the body read / allocation and the delivery happen only past prefix read ok, length!=0 (packet conn) and length<=limit; the delivered buffer is the one just filled and sized by the prefix; zero/over-limit prefixes and read failures end the pump with a non-nil error which the deferred cleanup records before closing the channel (single sender/closer); ReadFrom returns a nil error only when the caller's buffer is large enough and reports a closed channel as an error; (MIRROR) WriteTo/SendMsg emit exactly one buffer LE32(len)‖data and treat short writes/errors as errors; Session holds readMtx/sendMtx around its stream operations; limits are written only by the constructors and no call site passes a wire-derived limit. (LOOPALLOC) every looping caller of Session.RecvMsg decodes into a fresh or Reset message; (SIBLING) all NewPacketConn sites in transport/common/conn pass the configured mtu; (MUSTCALL) SendMsg reports success only after writing a frame (also for zero-length messages).",
+		Explain:     "Decides on SSA for the packet connection and the message session: (EXACTREAD) the stream is read only through io.ReadFull; (BOUNDED/R1) the body read / allocation and the delivery happen only past prefix read ok, length!=0 (packet conn) and length<=limit; the delivered buffer is the one just filled and sized by the prefix; zero/over-limit prefixes and read failures end the pump with a non-nil error which the deferred cleanup records before closing the channel (single sender/closer); ReadFrom returns a nil error only when the caller's buffer is large enough and reports a closed channel as an error; (MIRROR) WriteTo/SendMsg emit exactly one buffer LE32(len)‖data and treat short writes/errors as errors; Session holds readMtx/sendMtx around its stream operations; limits are written only by the constructors and no call site passes a wire-derived limit. (LOOPALLOC) every looping caller of Session.RecvMsg decodes into a fresh or Reset message; (SIBLING) all NewPacketConn sites in transport/common/conn pass the configured mtu; (MUSTCALL) SendMsg reports success only after writing a frame (also for zero-length messages). (OWNERSHIP) an arena buffer is not touched after it was handed back to the pool.",
 		NotCov:      "exactly-once/in-order delivery as a history (follows from exact reads, one pump goroutine and FIFO channels — trusted); in Session a zero length prefix is the encoding of an empty message, so the 'zero-length ⇒ error' clause is decided for the packet connection only.",
 		Assumptions: commonAssumptions})
 }
